@@ -4,12 +4,13 @@ import Operon.Model.Immune
 
 Fingerprint = 10 tokens `lenMean lenStd timeMean timeStd confMean confStd vocab struct errRate canary|none`.
 Stand-alone T cell:  `tcell rep anergy lenLo lenHi timeLo timeHi confLo confHi errMax vocabs structs canaryMin`,
-  `inspect <fp>`, `check <fp>`, `flag b`, `treset`, `tresetfa`.
+  `inspect <fp>`, `check <fp>`, `flag b`, `treset`, `tresetfa`, `tset rep|anergy k`, `tset profile <profile>`
+  (assignment to the public attributes after construction).
 Stand-alone Treg:    `treg stability (sev:cond)*`, `evaluate level action clean nviol anergic recent`.
 Stand-alone thymus:  `tcfg min tol varThr`, `sample <fp>`, `ttrain sdLen sdTime sdConf` (installs a default T cell).
 Pipeline:            `sys minTrain tol varThr stability cap (sev:cond)*`, `reg a`, `show a <fp>|none`, `train a`,
   `pinspect a`, `pflag a b`, `preset a`, `presetfa a`, `unrec a`, `updated a`, `expire` (two hours pass),
-  `pruneold hours`, `import (agent:vocab:struct:level:action:ageHours)*`, `reimport` (export, then import), `roundtrip` (export, `prune_old(0)`, import).
+  `pruneold hours`, `pset a rep|anergy k`, `pset a profile <profile>`, `gset stability (sev:cond)*`, `mset capacity`, `import (agent:vocab:struct:level:action:ageHours)*`, `reimport` (export, then import), `roundtrip` (export, `prune_old(0)`, import).
 Pipeline with the real display: `dreg a windowSize minObs`, `obs a text|brk|none|empty struct words len time conf err
   sdLen sdTime sdConf` (the three stdevs of the window after this observation), `canary a b`.
 -/
@@ -114,6 +115,11 @@ def step (st : DSt) (toks : List String) : DSt × String :=
     | some _, none => (st, "no-tcell")
     | none, _ => (st, "bad-op")
   | ["flag", b] => tstep st (·.flagManually (boolOf b))
+  | ["tset", "rep", k] => tstep st (·.setRep (intD k))
+  | ["tset", "anergy", k] => tstep st (·.setAnergy (intD k))
+  | ["tset", "profile", a, b, c, d, e, f, em, vs, ss, cm] =>
+    tstep st (·.setProfile
+      ⟨ratOf a, ratOf b, ratOf c, ratOf d, ratOf e, ratOf f, ratOf em, natList vs, natList ss, ratOf cm⟩)
   | ["treset"] => tstep st (·.reset)
   | ["tresetfa"] => tstep st (·.resetFA)
   | "treg" :: stab :: rules => ({ st with treg := ⟨rules.map ruleOf, intD stab⟩ }, "ok")
@@ -211,6 +217,13 @@ def step (st : DSt) (toks : List String) : DSt × String :=
   | ["preset", a] => ({ st with sys := st.sys.resetT (natD a) false }, "ok")
   | ["presetfa", a] => ({ st with sys := st.sys.resetT (natD a) true }, "ok")
   | ["unrec", a] => ({ st with sys := st.sys.dropRecord (natD a) }, "ok")
+  | ["pset", a, "rep", k] => ({ st with sys := st.sys.configT (natD a) (·.setRep (intD k)) }, "ok")
+  | ["pset", a, "anergy", k] => ({ st with sys := st.sys.configT (natD a) (·.setAnergy (intD k)) }, "ok")
+  | ["pset", ag, "profile", a, b, c, d, e, f, em, vs, ss, cm] =>
+    ({ st with sys := st.sys.configT (natD ag) (·.setProfile
+      ⟨ratOf a, ratOf b, ratOf c, ratOf d, ratOf e, ratOf f, ratOf em, natList vs, natList ss, ratOf cm⟩) }, "ok")
+  | "gset" :: stab :: rules => ({ st with sys := st.sys.setTreg ⟨rules.map ruleOf, intD stab⟩ }, "ok")
+  | ["mset", c] => ({ st with sys := st.sys.setCap (intD c) }, "ok")
   | ["updated", a] => ({ st with sys := st.sys.markUpdated (natD a) }, "ok")
   | ["expire"] => ({ st with sys := st.sys.expire }, "ok")
   | ["pruneold", h] =>
